@@ -122,10 +122,10 @@ type pAddr string
 func (a pAddr) Network() string { return "c18" }
 func (a pAddr) String() string  { return string(a) }
 
-func (p *pconn) LocalAddr() net.Addr                { return pAddr("10.0.0.1:18444") }
-func (p *pconn) RemoteAddr() net.Addr               { return pAddr("93.184.216.34:50001") }
-func (p *pconn) SetDeadline(t time.Time) error      { return nil }
-func (p *pconn) SetReadDeadline(t time.Time) error  { return nil }
+func (p *pconn) LocalAddr() net.Addr               { return pAddr("10.0.0.1:18444") }
+func (p *pconn) RemoteAddr() net.Addr              { return pAddr("93.184.216.34:50001") }
+func (p *pconn) SetDeadline(t time.Time) error     { return nil }
+func (p *pconn) SetReadDeadline(t time.Time) error { return nil }
 func (p *pconn) SetWriteDeadline(t time.Time) error {
 	if p.onWDL != nil {
 		p.onWDL()
